@@ -725,10 +725,11 @@ func (m *model) evalRule(r *Rule, phase int) {
 			st = status
 		}
 		m.interrupt(&Intr{RuleID: r.ID, Action: "redirect", Status: st, Data: redirect}, phase)
-	case "allow", "allow:phase", "allow:request":
+	case "allow", "allow:request":
 		if phase == 5 {
-			// "ends the current phase" and "the logging phase always runs" pull in different directions here
-			m.amb("allow executed inside the logging phase")
+			// "ends rule processing for the remaining phases except logging" executed inside the logging phase:
+			// whether the rest of the logging phase still runs is not pinned
+			m.amb("allow / allow:request executed inside the logging phase")
 		}
 	}
 	switch action {
@@ -800,8 +801,12 @@ func (m *model) runPhase(phase int) {
 			m.skip--
 			continue
 		}
+		if m.allow == 1 {
+			// allow:phase ends the current phase, whichever it is
+			break
+		}
 		if phase != 5 {
-			if m.allow == 1 || m.allow == 3 {
+			if m.allow == 3 {
 				break
 			}
 			if m.allow == 2 && (phase == 1 || phase == 2) {
